@@ -5,6 +5,7 @@ use crate::drive::{verdict, Verdict};
 use crate::engine::*;
 use crate::gen::*;
 use crate::model::St;
+use crate::val::V;
 use serde_json::{json, Value as J};
 use std::collections::BTreeMap;
 
@@ -356,8 +357,28 @@ pub fn replay(case: &J) -> CaseResult {
 
 fn random_case(u: &mut Choices, sz: Size) -> CaseResult {
     let wide = u.chance(1, 2);
-    let doc = if wide { gen_cfn_doc(u, &sz) } else { gen_doc(u, &sz) };
+    let mut doc = if wide { gen_cfn_doc(u, &sz) } else { gen_doc(u, &sz) };
+    // a third of the wide cases: multi-word keys present in several spellings with different
+    // values and queried in yet another spelling (which one the tool's case converters find is its
+    // business - but not the order of the clauses)
+    let mut sz = sz;
+    if wide && u.chance(1, 3) {
+        sz.alt_case = true;
+        add_case_families(u, &mut doc);
+    }
     let mut file = if wide { gen_wide_file(u, &doc, sz, false) } else { gen_core_file(u, &doc, sz, true, false) };
+    if sz.alt_case {
+        // two rules that reach the two families through different conversions, in both orders
+        let fam = |i: usize, k: usize| Query { head: Head::Key(CASE_FAMILIES[i][k].to_string()), parts: vec![] };
+        let (k0, k1) = (u.below(3), u.below(3));
+        let n = file.rules.len();
+        let c0 = Item::Clause(cl_un(fam(0, k0), UnOp::Exists, false));
+        let c1 = Item::Clause(cl_bin(fam(1, k1), BinOp::Eq, false, Lit::V(V::s("v1"))));
+        let c2 = Item::Clause(cl_bin(fam(0, (k0 + 1) % 3), BinOp::Eq, false, Lit::V(V::Int(2))));
+        file.rules.push(Rule { name: format!("cf{}a", n), when: None, lets: vec![], body: vec![vec![c1.clone()], vec![c2.clone()], vec![c0.clone()]] });
+        let at = u.below(file.rules.len());
+        file.rules.insert(at, Rule { name: format!("cf{}b", n), when: None, lets: vec![], body: vec![vec![c2], vec![c1]] });
+    }
     // a quarter of the wide programs capture map keys in a variable and count them elsewhere
     let captures = wide && u.chance(1, 4);
     if captures {
